@@ -289,7 +289,7 @@ func ruleC09Fanout(c *Ctx, cg *CG, sum *Summary) {
 				if b == l.Header {
 					continue
 				}
-				if !leadsOnlyToFailure(fi, s, 0, map[*ssa.BasicBlock]bool{}) {
+				if !edgeLeadsOnlyToFailure(fi, b, s, 0) {
 					ok = false
 					why = "the loop can be left early at " + p.Pos(lastPos(b)) + " without returning an error"
 				}
